@@ -100,7 +100,7 @@ def harvest_int_literals(modnames, lo=2, hi=10 ** 9):
     return sorted(out)
 
 
-def soak_size(modnames, default=1100, cap=6000):
+def soak_size(modnames, default=1100, cap=20000):
     """How many DISTINCT arguments a soak phase should push through a function so that any bounded table written with a
     literal capacity in these modules overflows: a bit more than the largest plausible capacity literal, within a budget."""
     lits = [v for v in harvest_int_literals(modnames, 64, cap) if v & (v - 1) == 0 or v % 100 == 0 or v % 128 == 0]
@@ -123,3 +123,35 @@ def soak_then_reprobe(rec, label, probes, soak_iter, n):
     rec.event("soak:%s:distinct-arguments" % label, k)
     for p in probes:
         p()
+
+
+# ---------------------------------------------------------------------------------------------- value shapes
+class IntSub(int):
+    """A legal int (isinstance(x, int) holds) that is not exactly `int`: type(x) is int checks and C fast paths treat it differently."""
+
+
+class BytesSub(bytes):
+    """A legal bytes object of another exact type."""
+
+
+def bit_patterns(nbits, rng, n_random=4):
+    """Integers below 2**nbits with structured bit patterns: zero / 0xFF bytes at chosen offsets, long runs of zeros or ones,
+    alternating patterns, low and high Hamming weight, single bits and single holes."""
+    nb = (nbits + 7) // 8
+    full = (1 << nbits) - 1
+    out = {0xAAAAAAAAAAAAAAAAAAAAAAAAAAAAAAAAAAAAAAAAAAAAAAAAAAAAAAAAAAAAAAAAAAAAAAAAAAAAAAAAAAAAAAAAAAAAAAAA & full,
+           0x5555555555555555555555555555555555555555555555555555555555555555555555555555555555555555555555555 & full,
+           full, full >> 1, full ^ (full >> (nbits // 2)), full >> (nbits // 2), 1 << (nbits - 1), (1 << (nbits - 1)) | 1}
+    base = rng.getrandbits(nbits) | (1 << (nbits - 1))
+    for off in {0, 1, nb // 2, nb - 2, nb - 1} | {rng.randrange(nb) for _ in range(n_random)}:
+        out.add(base & ~(0xFF << (8 * off)) & full)                # a zero byte at this offset
+        out.add((base | (0xFF << (8 * off))) & full)               # an 0xFF byte
+        out.add(base & ~(((1 << 64) - 1) << (8 * off)) & full)     # eight zero bytes
+    for _ in range(n_random):
+        w = rng.randrange(1, 4)
+        v = 0
+        for _ in range(w):
+            v |= 1 << rng.randrange(nbits)
+        out.add(v)                                                  # Hamming weight 1..3
+        out.add(full ^ v)                                           # ... and its complement
+    return sorted(x for x in out if x > 0)
